@@ -211,8 +211,10 @@ func NdJSON(raw []byte, limit uint32) bool {
 	var l []byte
 	for len(raw) != 0 {
 		l, raw = scanLine(raw)
-		_, inspected, firstToken, _ := json.Parse(json.QueryNone, l)
-		if len(l) != inspected {
+		parsed, _, firstToken, _ := json.Parse(json.QueryNone, l)
+		// Every line is complete here (dropLastLine removed a cut one), so it
+		// has to be blank or a whole JSON value, not just the start of one.
+		if len(l) != parsed && len(trimLWS(l)) != 0 {
 			return false
 		}
 		if firstToken == json.TokArray || firstToken == json.TokObject {
